@@ -1,0 +1,5 @@
+//go:build !verif
+
+package hub
+
+func verifPoint(name string) {}
